@@ -248,6 +248,16 @@ def run(shard, ctx):
                           st == "exc" and isinstance(v, NoteFormatError), {"shorthand": s}, "NoteFormatError", repr(v),
                           mechanism="reject:bass")
             ctx.case(("bad", s))
+        # a dash between two digits is still the alias of 'm' (7-5 reads 7m5, which is no shorthand), not a flat
+        for root_ in ("C", "F#", "Bb"):
+            for tail in ("7-5", "7-9", "m7-5", "sus4-9", "9-5", "13-9", "7-11", "6-9", "M7-5"):
+                for s in (root_ + tail, root_ + tail + "/G", "Dm|" + root_ + tail, root_ + tail + "|Am"):
+                    if (tail.replace("-", "m")) in chords.chord_shorthand:
+                        continue
+                    st, v = ctx.call(chords.from_shorthand, s)
+                    ctx.check("reject: an unknown shorthand raises the format error", st == "exc" and isinstance(v, (FormatError, NoteFormatError)),
+                              {"shorthand": s}, "FormatError / NoteFormatError", repr(v), mechanism="reject:dash-between-digits")
+                    ctx.case(("bad", s))
         # a known chord with a tail that string formatting, regular expressions or line handling might swallow, and such
         # text in the place of the root
         for hs in T.HOSTILE_STRINGS:
